@@ -77,7 +77,11 @@ def recording_regions(f):
                 for b, d in dom.items():
                     if d is not None and tbb in d:
                         out[b] = bb
+                        _REC_TRUE[(f.name, bb)] = tbb
     return out
+
+
+_REC_TRUE = {}
 
 
 def log_sites(f):
@@ -266,16 +270,30 @@ def run(rep, facts, tier):
             key = 'C02.R2:%s:%s:%s' % (fn, fid, w['how'])
             # candidate logs: same paths (dominance either way), under recording
             cands = []
+            cond_logs = []
             for (bb, var, fields, t, e) in logs:
                 if bb not in rec:
                     continue
                 guard = rec[bb]
-                same_paths = f.dominates(guard, w['bb']) or f.dominates(w['bb'], guard) or guard == w['bb']
-                # joined form: write in one of two branches, log after the join
-                if not same_paths:
-                    same_paths = _log_after_join(f, w['bb'], guard)
-                if same_paths:
+                # the recording test is on every path of the write: it dominates the write (log first) or
+                # post-dominates it (write first; also covers a write in one of two branches with the log after the join)
+                same_paths = f.dominates(guard, w['bb']) or guard == w['bb'] or _log_after_join(f, w['bb'], guard)
+                if not same_paths and f.dominates(w['bb'], guard):
+                    cond_logs.append(var)
+                # the log must depend on recording ONLY: once the recording edge is taken, every path to the
+                # return passes the log (a further condition such as `&& new != old` makes entries go missing)
+                tb = _REC_TRUE.get((f.name, guard))
+                pd = f.postdominators()
+                uncond = tb is not None and tb in pd and bb in pd[tb]
+                if same_paths and not uncond:
+                    cond_logs.append(var)
+                if same_paths and uncond:
                     cands.append((bb, var, fields, t))
+            if not cands and cond_logs:
+                rep.add('C02.R2', key, False,
+                        '%s logs %s for its write to State.%s only under a further condition besides is_recording(): some mutations are not '
+                        'recorded and cannot be undone' % (short(fn), '/'.join(cond_logs), '.'.join(w['field'])), fn, w['at'])
+                continue
             if not cands:
                 chain = fx.call_path(['state::State::fetch_and_run'], fn, extra_edges=extra)
                 rep.add('C02.R2', key, False,
@@ -362,14 +380,74 @@ def run(rep, facts, tier):
                 'arm writes State.%s directly (%s)' % (fields_[0], ', '.join(sorted({kind_of(w) for w in ws}))) if ok else
                 'arm writes %s and calls recording primitives %s' % (fields_, prim_calls), rc.name, rc.at(tgt))
 
+    check_rnext(rep, fx, arms, arm_writes)
     check_r4(rep, fx, W, far, reach, extra)
 
 
+def check_rnext(rep, fx, arms, arm_writes):
+    """rnext must re-read the live log after every reverse_changes call: an arm that goes through a recording
+    primitive (the OverData exception) appends an entry that only a pop-per-iteration drain loop consumes."""
+    from ..pathq import natural_loops
+    rn = fx.need('state::State::rnext')
+    rc_name = 'state::State::reverse_changes'
+    pops = set()
+    for c in fx.callgraph().get(rn.name, ()):
+        if c.startswith(rn.name + '::{closure') and c in fx.fns:
+            inner = [x for x in fx.reachable_from([c]) if x in fx.fns]
+            if any((callee_of(t) or '').endswith('Vec::<T, A>::pop') for x in inner for _, t in fx.fns[x].calls()):
+                pops.add(c)
+    def is_pop(t):
+        c = callee_of(t)
+        if c in pops:
+            return True
+        return (c or '').endswith('Vec::<T, A>::pop') and 'reverse_log' in expr_str(rn.expr_of_operand(t['args'][0]), -10)
+    loops = natural_loops(rn)
+    by_h = {}
+    for h, body, tail in loops:
+        by_h.setdefault(h, set()).update(body)
+    n = 0
+    ok_all = True
+    why = ''
+    for h, body in by_h.items():
+        rc_blocks = [b for b in body if rn.blocks[b]['term']['k'] == 'call' and callee_of(rn.blocks[b]['term']) == rc_name]
+        if not rc_blocks:
+            continue
+        n += 1
+        pop_blocks = [b for b in body if rn.blocks[b]['term']['k'] == 'call' and is_pop(rn.blocks[b]['term'])]
+        # every cycle through a reverse_changes call passes a pop of the live log
+        from .c16 import cycle_without
+        cyc = cycle_without(rn, h, body, set(pop_blocks))
+        if cyc is not None or not pop_blocks:
+            ok_all = False
+            why = 'the undo loop of rnext applies entries without re-reading the live log (cycle bb%s has no log.pop())' % '->bb'.join(map(str, (cyc or [h])[:8]))
+    if n == 0:
+        ok_all = False
+        why = 'rnext has no loop that applies log entries'
+    rep.add('C02.R3', 'C02.R3:rnext:drains-live-log', ok_all,
+            'each iteration pops one entry from the live log and applies it, stopping at (and re-queueing) the previous SetIp: entries appended '
+            'by an arm (OverData -> pop_data logs PushData) are consumed in the same rewind' if ok_all else
+            why + ': the entry appended by the OverData arm stays on the log (over is undone by two pops and a phantom instruction remains)',
+            rn.name, rn.j['span'])
+    # the stop condition: SetIp is re-queued
+    requeue = any(callee_of(t) == ADD for _, t in rn.calls())
+    rep.add('C02.R3', 'C02.R3:rnext:requeues-boundary', requeue,
+            'the SetIp that ends the drain is pushed back (it belongs to the previous instruction)' if requeue else
+            'rnext does not push the boundary SetIp back', rn.name, rn.j['span'], nontrivial=False)
+
+
 def _log_after_join(f, wbb, guard):
-    """write in one branch, recording test after the branches re-join: accept
-    when every path from the write reaches the guard block"""
-    pd = f.postdominators()
-    return wbb in pd and guard in pd[wbb]
+    """write first, recording test later: every path from the write to a successful return passes the test
+    (error exits taken before anything was logged - e.g. `pop().ok_or_else(..)?` - do not count)"""
+    rt = f.local_ty(0)
+    if 'Result<' in rt or 'Option<' in rt:
+        oks = {bb for (bb, i, cls, d) in return_defs(f) if cls in ('ok', 'forward', 'other')}
+    else:
+        oks = set(f.return_blocks())
+    if not oks:
+        return False
+    if wbb in oks and wbb != guard:
+        return False
+    return exists_path_avoiding(f, wbb, lambda b: b in oks, {guard}) is None
 
 
 def _perm_sig(f, w):
